@@ -257,7 +257,7 @@ Spl(g, e, line) ==
              /\ Chk("C12.NoReversal", line, SplNoReversal(x, r, e))
         /\ (e.threw = "" /\ Has("C13") /\ "expect" \in DOMAIN e) =>
              /\ Chk("MACHINERY.GeneratedCaseIsExactSolution", line, SplExactSolution(x, r, e))
-             /\ Chk("C13.NotLimited", line, e.ncorr = 0)
+             /\ Chk("C13.LimitedNodesIdentified", line, SplLimitedCount(x, e))
              /\ Chk("C13.SolvesImplicitEquation", line, SplEncloses(x, r, e))
   /\ UNCHANGED fvars
 
